@@ -222,6 +222,7 @@ def main():
             midx.append(None)
     replies = drv.run() if drv.lines else []
 
+    chain_budget = [30 if not thorough else 200]
     for (kind, kw), mi in zip(cases, midx):
         nodes, d = kw["nodes"], kw["d"]
         arr = C.farr(nodes)
@@ -262,6 +263,27 @@ def main():
                 if outcome == "undecided" and cert[0] in ("pos", "neg") and cert[2] <= 3 and cert[1] >= Fr(1, 2 ** 20) * size2:
                     res.failure("undecided-with-clear-margin", "polynomial_sign gave up although the certificate is reached after %d subdivisions with margin %.3g" %
                                 (cert[2], float(cert[1])), rc)
+                # the verdict of DERIVED objects: the four pieces of subdivide() taken from a parent whose verdict has already
+                # been read (a verdict cached on the parent must not leak into objects that are other triangles); each piece is
+                # judged against the exact certificate of ITS OWN control net (as returned, binary64)
+                if d >= 2 and chain_budget[0] > 0 and str(kw.get("family", "")).split(":")[0] in ("folded", "marginal", "designed"):
+                    chain_budget[0] -= 1
+                    for pi, piece in enumerate(tri.subdivide()):
+                        pn = [[Fr(float(x)) for x in r] for r in np.asarray(piece.nodes).tolist()]
+                        try:
+                            pout = "valid" if bool(piece.is_valid) else "invalid"
+                        except ValueError:
+                            pout = "undecided"
+                        pcert = certificate(power_to_bernstein(det_poly(pn, d), m), m)
+                        psize2 = max(abs(x) for r in pn for x in r) ** 2 or 1
+                        prc = {"kind": "verdict", "kw": dict(jkw, piece=pi)}
+                        res.count(("piece", str(jkw), pi), nontrivial=False, piece_outcome=pout, piece_certificate=pcert[0])
+                        if pout == "valid" and pcert[0] in ("neg", "mixed"):
+                            res.failure("valid-but-jacobian-not-positive:subdivided-piece", "piece %d of subdivide() of a degree-%d triangle whose is_valid had "
+                                        "been read: is_valid = True but det J is not positive on the piece" % (pi, d), prc)
+                        if pout == "invalid" and pcert[0] == "pos" and pcert[1] >= Fr(1, 2 ** 20) * psize2:
+                            res.failure("invalid-but-jacobian-positive:subdivided-piece", "piece %d of subdivide() of a degree-%d triangle whose is_valid had "
+                                        "been read (%s): is_valid = False although det J >= %.3g > 0 on the whole piece" % (pi, d, outcome, float(pcert[1])), prc)
             elif kind == "jacobian-polynomial":
                 m = {2: 2, 3: 4}[d]
                 fn = TH.quadratic_jacobian_polynomial if d == 2 else TH.cubic_jacobian_polynomial
